@@ -730,6 +730,108 @@ func triplesByMax(set []int, yield func(x, y, z int) bool) {
 	}
 }
 
+// ---------------------------------------------------------------------------------------------
+// space 5: long lists — membership and equality on lists beyond every size threshold a fast path may have
+
+// longBases: the element sequences (prefixes of 18..40 elements are used).
+func longBases() [][]*rv {
+	var ints, strs, mixed, floats, withFloat []*rv
+	for i := 0; i < 40; i++ {
+		ints = append(ints, vi(int64(i)))
+		strs = append(strs, vs(fmt.Sprintf("s%d", i)))
+		floats = append(floats, vf(float64(i)+0.5))
+		if i%2 == 0 {
+			mixed = append(mixed, vi(int64(i)))
+		} else {
+			mixed = append(mixed, vs(fmt.Sprintf("s%d", i)))
+		}
+		if i == 7 {
+			withFloat = append(withFloat, vf(7))
+		} else {
+			withFloat = append(withFloat, vi(int64(i)))
+		}
+	}
+	return [][]*rv{ints, strs, mixed, floats, withFloat}
+}
+
+var longSizes = []int{18, 20, 21, 22, 33, 40}
+var longReprs = []string{"eager", "evaluated", "map", "accept", "mixed"}
+
+// longNeedles: the values searched for.
+func longNeedles() []*rv {
+	return []*rv{vi(0), vi(2), vi(7), vi(19), vi(20), vi(39), vi(40), vi(-1), vf(2), vf(7), vf(19), vf(2.5), vf(20.5), vf(100), vf(math.NaN()),
+		vs("s1"), vs("s19"), vs("s20"), vs("s2"), vs("a"), vs(""), vb(true), vb(false), vl(vi(1)), vm("lit", "a", vi(1))}
+}
+
+func longCase(b, n, r, x int) (needle, list *rv) {
+	return longNeedles()[x], vlr(longReprs[r], longBases()[b][:longSizes[n]]...)
+}
+
+// checkLong: x ~ list against the reference relation; list = list in two representations, and against the
+// same list with one int written as a float of the same value.
+func (e *env) checkLong(s sink, b, n, r, x int) {
+	needle, list := longCase(b, n, r, x)
+	rep := func(expr string) map[string]any {
+		return map[string]any{"tier": e.tier, "space": "long-lists", "expr": expr, "base": b, "size": n, "repr": r, "needle": x, "a": needle.String(), "b": list.String()}
+	}
+	judge := func(expr string, exp ref, got outcome) {
+		s.Outcome("long " + expr + " " + got.class())
+		switch exp.r {
+		case 'U':
+			s.Unspecified(exp.why)
+		case 'E':
+			if got.c != 'E' {
+				s.Violate("incomparable operands: operator must fail with an error", rep(expr), "an error", got.String(), "")
+			}
+		case 'T', 'F':
+			s.Nontrivial(fmt.Sprintf("long|%s|%d|%d|%d|%d", expr, b, n, r, x))
+			if got.c != exp.r {
+				s.Violate("wrong result on comparable operands", rep(expr), map[byte]string{'T': "true", 'F': "false"}[exp.r]+" (reference relation of the property)", got.String(), "")
+			}
+		}
+	}
+	_, got, _ := e.call(e.opFn[opIn], needle, list)
+	judge("a ~ b", refOp("~", needle, list), got)
+	if x == 0 {
+		// equality of the long list with itself in another representation and with a numerically equal twin
+		other := vlr(longReprs[(r+1)%len(longReprs)], list.elems...)
+		_, got, _ = e.call(e.opFn[opEq], list, other)
+		judge("b = b'", refOp("=", list, other), got)
+		twin := append([]*rv{}, list.elems...)
+		if twin[5].k == kInt {
+			twin[5] = vf(float64(twin[5].i))
+		}
+		tl := vlr(longReprs[r], twin...)
+		_, got, _ = e.call(e.opFn[opEq], tl, list)
+		judge("b(5 as float) = b", refOp("=", tl, list), got)
+		short := vlr(longReprs[r], list.elems[:len(list.elems)-1]...)
+		_, got, _ = e.call(e.opFn[opEq], list, short)
+		judge("b = b without its last element", refOp("=", list, short), got)
+	}
+}
+
+func (e *env) runLong(ctx *bex.Ctx) {
+	ctx.Space("long-lists")
+	var idx int64
+	nb, nx := len(longBases()), len(longNeedles())
+	for b := 0; b < nb; b++ {
+		for n := range longSizes {
+			for r := range longReprs {
+				for x := 0; x < nx; x++ {
+					idx++
+					if !ctx.Mine(idx) || ctx.Expired() {
+						continue
+					}
+					ctx.Begin(func() map[string]any { return map[string]any{"space": "long-lists", "base": b, "size": n, "repr": r, "needle": x} })
+					ctx.Eval()
+					e.checkLong(ctx, b, n, r, x)
+				}
+			}
+		}
+	}
+	ctx.SpaceDone(fmt.Sprintf("%d element sequences (ints, strings, alternating, floats, ints with one float) x lengths %v x representations %v x %d values searched with ~ (ints, floats equal and unequal to elements, strings, bools, a list, a map); = of each long list with itself in another representation, with one element as float, without its last element", nb, longSizes, longReprs, nx))
+}
+
 func run(ctx *bex.Ctx) {
 	e := newEnv(ctx.Tier)
 	e.allocTables()
@@ -860,6 +962,7 @@ func run(ctx *bex.Ctx) {
 		return true
 	})
 	ctx.SpaceDone(fmt.Sprintf("all %d^3 ordered triples of the hand-picked pool x {%s}", e.curated, strings.Join(derived3, "; ")))
+	e.runLong(ctx)
 }
 
 // ---------------------------------------------------------------------------------------------
@@ -887,6 +990,21 @@ func replay(repro map[string]any) (string, bool) {
 	}
 	i, j, k := num("i"), num("j"), num("k")
 	e := newEnv(tier)
+	if space == "long-lists" {
+		b, n, r, x := num("base"), num("size"), num("repr"), num("needle")
+		if b < 0 || b >= len(longBases()) || n < 0 || n >= len(longSizes) || r < 0 || r >= len(longReprs) || x < 0 || x >= len(longNeedles()) {
+			return "case does not name a long-list case", false
+		}
+		c := &collect{}
+		e.checkLong(c, b, n, r, x)
+		needle, list := longCase(b, n, r, x)
+		_, o, _ := e.call(e.opFn[opIn], needle, list)
+		out := fmt.Sprintf("%s ~ %s: %s", needle, list, o)
+		if len(c.v) > 0 {
+			out += " | failing: " + strings.Join(c.v, " || ")
+		}
+		return out, len(c.v) > 0
+	}
 	if i < 0 || i >= len(e.pool) || j >= len(e.pool) || k >= len(e.pool) {
 		return "case does not name pool values of this tier", false
 	}
